@@ -136,6 +136,9 @@ type SettleRec struct {
 	SweptS, SweptP *big.Int
 	Proceeds       *big.Int // paying coin that left the paying escrow towards auctioneer/vesting
 	Caps           map[string]*big.Int
+	UsedPriceM     *big.Int  // batch: published matched price (reference price when nothing is published)
+	Bids           []*BidRec // the order book at settlement
+	PayDenom       string
 }
 
 // BidInfo is what the ledger remembers about an accepted bid.
@@ -394,8 +397,10 @@ func (h *History) absorb(st *Step) {
 		if tr.Settled {
 			rec := &SettleRec{Step: st.Idx, SweptS: bcopy(h.donated(tr.ID, "selling", tr.Post.SellDenom)), SweptP: bcopy(h.donated(tr.ID, "paying", tr.Post.PayDenom)), Caps: CapsOf(st.Pre, tr.ID)}
 			bids := st.Pre.BidsOf(tr.ID)
+			rec.Bids, rec.PayDenom = bids, tr.Pre.PayDenom
 			if tr.Pre.IsBatch() {
 				rec.Ref = RefMatch(bids, rec.Caps, tr.Pre.SellAmt, tr.Pre.PayDenom)
+				rec.UsedPriceM = UsedPrice(tr.Post, rec.Ref)
 				rec.Alloc = rec.Ref.Alloc
 				rec.ReqSum = rec.Ref.ReqSum
 			} else {
